@@ -30,7 +30,7 @@ PROPS = {
     claim="Proof that the source multi-index produced by transpose/moveaxis/swapaxes/tile/repeat(non-repeated axes)/roll indexers lies inside the source shape for every in-shape destination index, and that static_vector never holds more than its capacity (inductive invariant over every mutator); buffer-position bounds for run-time shapes (non-linear) and slice-based views are not decided.",
     note=E1_NOTE,
     technique=E1_TECH,
-    e1=[dict(tu="c03_rearrange.cpp"), dict(tu="c03b_dynamic.cpp"), dict(tu="c04_select.cpp"), dict(tu="c19_utl.cpp"), dict(tu="c02_capacity.cpp")],
+    e1=[dict(tu="c03_rearrange.cpp"), dict(tu="c03b_dynamic.cpp"), dict(tu="c04_select.cpp"), dict(tu="c19_utl.cpp"), dict(tu="c02_capacity.cpp"), dict(tu="c03c_reshape.cpp")],
     e2=[dict(rule="R-SIMD")],
     rule=E1_RULE,
     explanation="in-shape obligations are stated through the view's own indexer (indexing_t / decorator_t on the path); capacity obligations are an inductive class invariant (assume on entry, prove on exit).",
@@ -39,13 +39,13 @@ PROPS = {
  ),
  "C03": dict(
     level="proof",
-    claim="Proof of NumPy's shape law, source-index law and element law for transpose (default and compile-time axes), moveaxis and swapaxes (compile-time axes incl. negative) at ranks 1..4 for every extent and index, and the same laws for run-time axes (transpose with a run-time permutation, moveaxis with run-time ints) and for arrays whose shape is a bounded run-time-length static_vector (the library's run-time-loop branches); reshape/flatten/squeeze/flip/expand_dims element laws are not decided.",
+    claim="Proof of NumPy's shape law, source-index law and element law for transpose (default and compile-time axes), moveaxis and swapaxes (compile-time axes incl. negative) at ranks 1..4 for every extent and index, and the same laws for run-time axes (transpose with a run-time permutation, moveaxis with run-time ints) and for arrays whose shape is a bounded run-time-length static_vector (the library's run-time-loop branches); reshape (run-time target shape), flatten and expand_dims keep C order in closed form (source index = unravel(ravel(dst, dst_shape), src_shape)) with the requested / NumPy shape, ranks up to 3x3; shape laws of shape_reshape incl. one -1, expand_dims and atleast_nd at index level; squeeze and flip are not decided.",
     note=E1_NOTE,
     technique=E1_TECH,
-    e1=[dict(tu="c03_rearrange.cpp"), dict(tu="c03b_dynamic.cpp"), dict(tu="c15_args.cpp"), dict(tu="c02_capacity.cpp")],
+    e1=[dict(tu="c03_rearrange.cpp"), dict(tu="c03b_dynamic.cpp"), dict(tu="c03c_reshape.cpp"), dict(tu="c15_args.cpp"), dict(tu="c02_capacity.cpp")],
     rule=E1_RULE,
     explanation="expected shape and source index are written from NumPy's definitions in the driver; the element law is equality of the bits loaded through the view and through the source at the expected index.",
-    not_decided="reshape incl. -1, flatten, expand_dims, atleast_nd element maps (div/mod round trip), squeeze, flip, run-time axes, dynamic shapes",
+    not_decided="squeeze (data-dependent rank), flip (negative-step slice), reshape with -1 at view level, atleast_nd element map, heap (std::vector) shapes, permutation property as such (injectivity follows from the mixed-radix theorem, not discharged)",
     assumptions=["destination index inside the view's shape"],
  ),
  "C04": dict(
